@@ -208,6 +208,11 @@ def run(prop, tier, seed, replay=None):
             if i != j:
                 pv.append(FL.flt(tags=[(t_, [vals[i], vals[j]])]))
                 pv.append(FL.flt(authors=[1, 2], tags=[(t_, [vals[i], vals[j]])], limit=2))
+    # several (author, kind) pairs in both orders, a replaceable kind among them whose event is newer than the others
+    for ks in ([3, 1], [1, 3], [3, 1, 7], [7, 3, 1], [1059, 3, 1]):
+        pv.append(FL.flt(authors=[1], kinds=ks))
+        pv.append(FL.flt(authors=[2, 1], kinds=ks))
+        pv.append(FL.flt(authors=[1, 2], kinds=ks, limit=3))
     pv.append(FL.flt(tags=[(sidx[b"u"], [sidx[b"abc"]])]))
     pv.append(FL.flt(tags=[(t_, [sidx[b"abc"]]), (sidx[b"p"], [uv["pk_sidx"][1]])]))
     vfp = os.path.join(wd, "probes_qv.json")
